@@ -182,7 +182,16 @@ func dischargeAll(jobs []job, timeoutMs int, keepScripts bool) {
 					continue
 				}
 				sc := j.g.script(j.o)
-				r := discharge(dir, i, sc, timeoutMs)
+				var r solveResult
+				if j.o.Cover {
+					// covers are satisfiability checks: a quick look with one solver is enough (only `unsat` matters)
+					file := filepath.Join(dir, fmt.Sprintf("c%05d.smt2", i))
+					os.WriteFile(file, []byte(sc), 0o644)
+					r = runSolver(context.Background(), solvers[0], file, 1500)
+					os.Remove(file)
+				} else {
+					r = discharge(dir, i, sc, timeoutMs)
+				}
 				j.o.Result = r.status
 				j.o.Solver = r.solver
 				j.o.TimeS = r.secs
